@@ -307,6 +307,21 @@ def _ops_of(stmts, payload_var: str, where: str) -> list[str]:
             ops.append(".assertValid")
         elif s == LOOKUP:
             ops.append(".lookupPeer")
+        elif isinstance(st, ast.Assign) and _norm(st.targets[0]) == "peer" and isinstance(st.value, ast.BoolOp) \
+                and isinstance(st.value.op, ast.Or):
+            # `peer = <lookup by key> or <lookup by source address> …`: translated alternative by alternative, so that
+            # the guard theorem (not the translator) is what rejects a peer that does not come from the carried key
+            alts = [_norm(v) for v in st.value.values]
+            if alts[0] != LOOKUP.split(" = ", 1)[1]:
+                raise TranslatorError(f"{where}: peer lookup does not start with the key lookup: {s[:120]}")
+            ops.append(".lookupPeer")
+            for alt in alts[1:]:
+                if alt == "self.network.get_verified_by_address(source_address)":
+                    ops.append(".orLookupByAddr")
+                elif alt == LOOKUP.split(" = ", 1)[1]:
+                    pass
+                else:
+                    raise TranslatorError(f"{where}: unsupported alternative in the peer lookup: {alt[:100]}")
         elif isinstance(st, ast.If) and _norm(st.test) == "peer" and not st.orelse and len(st.body) == 1 \
                 and _norm(st.body[0]) == "peer.add_address(source_address)":
             pass  # address bookkeeping on the already-known peer; no effect on identity
